@@ -30,7 +30,11 @@ LEVEL_NOTE = ("Partial: proof about a hand-written model, tied to the code by di
               "latest key - not as a real-time bound. The tracker model has one subscriber and one writer (waiters are independent; the controllers apply one request at a time); "
               "a batch with several sequence puts of one prefix publishes their keys in order and is modelled by its last key. 'Greater than every existing key of the prefix' "
               "is claimed for the keys below prefix-%020d(2^64-1) (all keys of the prefix in seq_wf states); a plain key such as 's-9' above that bound is never looked at. "
-              "Deleting the key a batch itself generated (same request) still tells the waiters that key.")
+              "Deleting the key a batch itself generated (same request) still tells the waiters that key. "
+              "The public RPC (publicRpcServer.GetSequenceUpdates) forwards every value of the waiter's channel to the client's stream unchanged (the identity), so "
+              "c16_latest_observed composes with it without a further model; that loop is exercised by the 'rpc' leg (real rf=1 LeaderController, in-memory stream), where the "
+              "specification is evaluated directly: after a subscription and after every sequence put the stream's last value must become the key to observe (bounded wait of 3 s; "
+              "microseconds in practice), also when deletes of the highest key make later generated keys smaller than keys the subscriber saw before.")
 TRUSTED = ["modelled not verified: Pebble v1.1.2 (ordered map, FindLower, snapshot iterators, atomic batch commit), Go channel / RWMutex semantics, fmt.Sprintf/Sscanf (transcribed and compared on generated inputs)"]
 ASSUMES = ["c16_exact: the deltas are uint64 values, the first one non-zero, the request has a partition key and no expected version, and it has at least as many deltas as the last key has suffixes (otherwise ErrMissingSequenceDeltas: C13's known finding)",
            "c16_seq_wf_invariant: the prefix is not comparable with '__oxia/' and nothing but sequence puts of that prefix creates keys that start with it",
@@ -39,12 +43,16 @@ RULE = ("seq: one case = 15-40 requests against a fresh real DB, 1-3 puts each, 
         "{1,2,3,10^19,2^63,2^64-2,2^64-1,0 (not first),random}, arity sometimes growing, other writes elsewhere, deletes of generated keys, in 20% of the cases plain keys "
         "written under the prefixes; every response and dump digest compared with the model, every sequence put checked against the big-integer reference; "
         "sub: one case = a forced schedule of 4-12 steps (writes held between key generation and commit, failing batches, subscriptions before / during / after writes, "
-        "commits placed between the subscriber's read and its initial write, receives) compared with the transition system; distinct by generator sub-seed")
+        "commits placed between the subscriber's read and its initial write, receives) compared with the transition system; "
+        "rpc: one case = 8-20 steps through WriteBlock of a real rf=1 leader (sequence puts, deletes of the highest / of middle generated keys, other puts) with subscribers attached "
+        "through publicRpcServer.GetSequenceUpdates before / between / after the writes; distinct by generator sub-seed")
 LEGS = [
     {"name": "seq", "harness": "db", "model": "db", "n_quick": 400, "n_thorough": 20000, "args": ["-mode", "c16seq"],
      "corpus": "corpus/db16/seq", "timeout": 900, "timeout_thorough": 3000},
     {"name": "sub", "harness": "db", "model": "db", "n_quick": 1500, "n_thorough": 60000, "args": ["-mode", "c16sub"],
      "corpus": "corpus/db16/sub", "timeout": 900, "timeout_thorough": 3000},
+    {"name": "rpc", "harness": "db", "model": None, "n_quick": 300, "n_thorough": 20000, "args": ["-mode", "c16rpc"],
+     "corpus": "corpus/db16/rpc", "timeout": 900, "timeout_thorough": 3000},
 ]
 REGISTERED = True
 
